@@ -92,7 +92,8 @@ var mutations = []string{
 //	set    store S: sleep Sleep ranks, then Set(key, plaintext) through the API
 //	bcast  deliver broadcast N (mod) of store S's outbox to store T through HandleMessage
 //	acl    store S learns N more ACL records
-//	sync   store S runs the real sync exchange with store T (rpctest)
+//	sync   store S runs the real sync exchange with store T (rpctest); with Fault the exchange is first
+//	       run with a storage error at every write boundary of the initiator (N even) or responder (N odd)
 //
 // Fault: the write is first attempted with an injected storage error at boundary 1, 2, ...
 // (every boundary of the call), each failure followed by a retry of the same input.
@@ -196,7 +197,45 @@ func genCaseWith(rt *rapid.T, allFaults bool) Case {
 	st := rapid.IntRange(0, nStores-1)
 	for i := 0; i < nOps; i++ {
 		var op Op
-		switch k := rapid.IntRange(0, 19).Draw(rt, "kind"); {
+		switch k := rapid.IntRange(0, 22).Draw(rt, "kind"); {
+		case k >= 20:
+			// a burst: 2-3 fresh valid values of ONE slot (owner-signed, citing the root, so every
+			// store accepts them) in one fault-enumerated batch, ascending / descending / mixed,
+			// mostly on top of an older value of that slot stored just before
+			if len(c.Vals)+4 > tsSlots/2 {
+				continue
+			}
+			sl := slots[rapid.IntRange(0, nSlots-1).Draw(rt, "burstSlot")]
+			base := rapid.IntRange(0, 24).Draw(rt, "burstTS")
+			first := len(c.Vals)
+			nb := rapid.IntRange(3, 4).Draw(rt, "burstVals")
+			for j := 0; j < nb; j++ {
+				c.Vals = append(c.Vals, Val{Key: sl.k, Dev: sl.d, Acct: rapid.SampledFrom([]int{0, 0, 0, 1}).Draw(rt, "burstAcct"), TS: base + j, Head: rapid.SampledFrom([]int{0, 0, 0, 1}).Draw(rt, "burstHead")})
+			}
+			s := st.Draw(rt, "s")
+			if rapid.IntRange(0, 3).Draw(rt, "burstPre") != 0 {
+				c.Ops = append(c.Ops, Op{K: "raw", S: s, Items: []Item{{V: first}}})
+			}
+			var items []Item
+			switch rapid.IntRange(0, 3).Draw(rt, "burstOrder") {
+			case 0, 1: // ascending
+				for j := 1; j < nb; j++ {
+					items = append(items, Item{V: first + j})
+				}
+			case 2: // descending
+				for j := nb - 1; j >= 1; j-- {
+					items = append(items, Item{V: first + j})
+				}
+			default: // mixed
+				items = append(items, Item{V: first + 2}, Item{V: first + 1})
+				if nb > 3 {
+					items = append(items, Item{V: first + 3})
+				}
+			}
+			if rapid.IntRange(0, 2).Draw(rt, "burstMix") == 0 {
+				items = append(items, genItem(rt, nVals))
+			}
+			op = Op{K: "raw", S: s, Via: rapid.SampledFrom([]int{0, 1}).Draw(rt, "via"), Items: items, Fault: allFaults || rapid.IntRange(0, 3).Draw(rt, "fault") != 0}
 		case k < 11:
 			op = Op{K: "raw", S: st.Draw(rt, "s"), Via: rapid.SampledFrom([]int{0, 0, 1}).Draw(rt, "via")}
 			n := rapid.IntRange(1, 6).Draw(rt, "batch")
@@ -223,7 +262,8 @@ func genCaseWith(rt *rapid.T, allFaults bool) Case {
 		case k < 18:
 			op = Op{K: "acl", S: st.Draw(rt, "s"), N: rapid.IntRange(1, 4).Draw(rt, "n")}
 		default:
-			op = Op{K: "sync", S: st.Draw(rt, "s"), T: st.Draw(rt, "t")}
+			op = Op{K: "sync", S: st.Draw(rt, "s"), T: st.Draw(rt, "t"), N: rapid.IntRange(0, 1).Draw(rt, "responderFirst")}
+			op.Fault = allFaults || rapid.IntRange(0, 3).Draw(rt, "fault") == 0
 		}
 		c.Ops = append(c.Ops, op)
 	}
@@ -844,6 +884,59 @@ func (r *runner) applyBatchTo(alts []*alt, s *store, batch []*spacesyncproto.Sto
 	}
 }
 
+// classifyFaultedBatch labels the shapes of a fault-enumerated batch that matter for the
+// undo of the in-memory index: several values of one slot in one inner Set call (which
+// does not dedupe), in which order, and whether the slot already holds an older value.
+func (r *runner) classifyFaultedBatch(s *store, batch []*spacesyncproto.StoreKeyValue) {
+	m := r.alts[0].m[s.idx]
+	type seen struct {
+		n        int
+		last     int64
+		asc, dsc bool
+		first    int64
+	}
+	slots := map[string]*seen{}
+	for _, p := range batch {
+		ri := r.w.judge(p, s.aclLen)
+		if !ri.ok || ri.relabel {
+			continue
+		}
+		if cur, ok := m[ri.trueId]; ok && cur.ts >= ri.ts {
+			continue // filtered against the index before the inner Set
+		}
+		sl := slots[ri.trueId]
+		if sl == nil {
+			sl = &seen{first: ri.ts}
+			slots[ri.trueId] = sl
+		} else if ri.ts > sl.last {
+			sl.asc = true
+		} else {
+			sl.dsc = true
+		}
+		sl.n++
+		sl.last = ri.ts
+	}
+	for id, sl := range slots {
+		if sl.n < 2 {
+			continue
+		}
+		_, stored := m[id]
+		where := "new-slot"
+		if stored {
+			where = "over-stored-older"
+		}
+		if sl.asc {
+			r.class("fault-same-slot-ascending-" + where)
+		}
+		if sl.dsc {
+			r.class("fault-same-slot-descending-" + where)
+		}
+		if sl.asc && sl.dsc {
+			r.class("fault-same-slot-mixed-" + where)
+		}
+	}
+}
+
 func marshalPush(w *world, batch []*spacesyncproto.StoreKeyValue) ([]byte, error) {
 	payload, err := (&spacesyncproto.StoreKeyValues{KeyValues: batch}).MarshalVT()
 	if err != nil {
@@ -946,6 +1039,9 @@ func (r *runner) opRaw(op Op, step string) error {
 		r.class("via-setraw")
 	} else {
 		r.class("via-pushed-head-update")
+	}
+	if op.Fault {
+		r.classifyFaultedBatch(s, batch)
 	}
 	callErr, viol := r.write(s, step, op.Fault, attempt)
 	if viol != nil {
@@ -1080,13 +1176,73 @@ func (r *runner) opSet(op Op, step string) error {
 
 // opSync: one real sync exchange a -> b. Reference: each side is offered everything the
 // other side stored (LWW makes the not-newer ones no-ops), judged with its own ACL view.
-func (r *runner) opSync(a, b *store, step string, mustEqual bool) error {
-	if a == b {
-		return nil
-	}
+// exchange runs one real sync exchange a -> b to quiescence.
+func (r *runner) exchange(a, b *store) error {
 	p, closeFn, err := r.w.pair(a, b)
 	if err != nil {
 		return err
+	}
+	if err := a.svc.SyncWithPeer(p); err != nil {
+		closeFn()
+		return fmt.Errorf("SyncWithPeer: %v", err)
+	}
+	synctest.Wait()
+	closeFn()
+	synctest.Wait()
+	return nil
+}
+
+// faultedExchanges: before the clean exchange, the exchange is run with a storage error at
+// boundary 1, 2, ... of the initiator's writes (the pulled stream batch) and then of the
+// responder's writes (the pushed values); after each failed exchange both indexes must equal
+// their storage. Whatever a failed exchange did store is a subset of what the clean one
+// stores (LWW is idempotent), so the model is only compared after the clean exchange.
+func (r *runner) faultedExchanges(a, b *store, step string, responderFirst bool) error {
+	// the first failed exchange already completes the OTHER side's transfer, so the side
+	// that goes first is the one whose boundaries are all exercised
+	sides := []*store{a, b}
+	if responderFirst {
+		sides = []*store{b, a}
+	}
+	for _, side := range sides {
+		role := "initiator"
+		if side == b {
+			role = "responder"
+		}
+		for k := 1; k <= 24; k++ {
+			a.db.Reset()
+			b.db.Reset()
+			side.db.FailAt(k)
+			nErr := len(b.handlerErrs)
+			if err := r.exchange(a, b); err != nil {
+				return err
+			}
+			log := side.db.Log()
+			a.db.Reset()
+			b.db.Reset()
+			b.handlerErrs = b.handlerErrs[:nErr] // a failing responder write is expected to fail its handler
+			if !(len(log) >= k && log[k-1].Kind != "rollback") {
+				break
+			}
+			r.faultAttempts++
+			r.class("fault-sync-" + role)
+			for _, x := range []*store{a, b} {
+				o, err := x.observe()
+				if err != nil {
+					return err
+				}
+				if err := r.consistent(x, o); err != nil {
+					return fmt.Errorf("%s: store %d after an exchange whose %s hit a storage error at boundary %d (%s %s): %v", step, x.idx, role, k, log[k-1].Kind, log[k-1].Coll, err)
+				}
+			}
+		}
+	}
+	return nil
+}
+
+func (r *runner) opSync(a, b *store, step string, mustEqual, fault, responderFirst bool) error {
+	if a == b {
+		return nil
 	}
 	type offer struct {
 		toA, toB []*spacesyncproto.StoreKeyValue
@@ -1111,16 +1267,17 @@ func (r *runner) opSync(a, b *store, step string, mustEqual bool) error {
 			push++
 		}
 	}
+	if fault {
+		if err := r.faultedExchanges(a, b, step, responderFirst); err != nil {
+			return err
+		}
+	}
 	a.db.Reset()
 	b.db.Reset()
 	nErr := len(b.handlerErrs)
-	if err := a.svc.SyncWithPeer(p); err != nil {
-		closeFn()
-		return fmt.Errorf("SyncWithPeer: %v", err)
+	if err := r.exchange(a, b); err != nil {
+		return err
 	}
-	synctest.Wait()
-	closeFn()
-	synctest.Wait()
 	if len(b.handlerErrs) != nErr {
 		return fmt.Errorf("%s: responder's StoreElements handler failed: %v", step, b.handlerErrs[nErr:])
 	}
@@ -1273,7 +1430,7 @@ func (r *runner) run() error {
 			if a != b {
 				r.class("sync-midrun")
 			}
-			err = r.opSync(a, b, step, a.aclLen == b.aclLen && a.aclLen == nRec)
+			err = r.opSync(a, b, step, a.aclLen == b.aclLen && a.aclLen == nRec, op.Fault, op.N%2 == 1)
 		default:
 			err = fmt.Errorf("unknown op %q", op.K)
 		}
@@ -1314,7 +1471,7 @@ func (r *runner) run() error {
 		if tail[(i+3)%len(tail)]%2 == 1 {
 			a, b = b, a
 		}
-		if err := r.opSync(w.stores[a], w.stores[b], fmt.Sprintf("final exchange %d->%d", a, b), true); err != nil {
+		if err := r.opSync(w.stores[a], w.stores[b], fmt.Sprintf("final exchange %d->%d", a, b), true, i == 0 && tail[(i+1)%len(tail)]%3 == 0, tail[(i+2)%len(tail)]%2 == 1); err != nil {
 			return err
 		}
 	}
